@@ -125,6 +125,17 @@ pub fn lw_pool(quick: bool) -> Vec<LwSpec> {
             v.push(sp(&format!("idle.{}", name), &cfg, &s, env, if quick { 2 } else { 3 }));
         }
     }
+    // F8: bulk transfer to a peer whose application steps only every 8th round: the sender leaves slow start, 32 and more frames
+    // arrive between two steps of the receiver and are acknowledged in one group; a lost fragment keeps its packet incomplete
+    {
+        let cfg = LwCfg { pwin: 64, fwin: 4096, step_every: [1, 8], ..LwCfg::small() };
+        let ops: Vec<Op> = (0..6).map(|i| send(0, 0, (i % 2) as u8, if i == 3 { Persistent } else { Reliable }, 48 * FRAG - 100 * i)).chain(std::iter::once(send(40, 0, 1, Reliable, 50))).collect();
+        let s = Arc::new(ScriptInfo::new(ops));
+        let dev_start = std::env::var("VERIF_BULK_START").ok().and_then(|x| x.parse().ok()).unwrap_or(40);
+        let mut env = env_live(dev_start, if quick { 4 } else { 8 });
+        env.fates = &[Fate::Deliver, Fate::Drop]; env.deltas = &[20];
+        v.push(sp("bulk.slow-receiver", &cfg, &s, env, if quick { 1 } else { 2 }));
+    }
     v
 }
 
